@@ -27,6 +27,8 @@ import GoZero.C19.Schedule
 import GoZero.C19.Atomic
 import GoZero.C19.InjModel
 import GoZero.C19.Driver
+import GoZero.C19.LinProofs
+import GoZero.C19.Ids
 namespace GoZero.C19
 open Spec
 
@@ -411,6 +413,112 @@ theorem lease_counted_from_call_start (cfg : Nat → LockCfg) (hd : DistinctIds 
   rw [run_now, acquireWith_now] at hnow
   omega
 
+/-! ### Round 4: the clauses of the property, each end to end (see props/C19.json, clause map) -/
+
+/-- **Acquire succeeds only if no other instance holds the key unexpired** (the clause, literally). -/
+theorem acquire_succeeds_only_if_no_other_holder (cfg : Nat → LockCfg) (hd : DistinctIds cfg) (st : St) (i : Nat)
+    (h : (acquire cfg st i).2 = true) (j : Nat) (hij : j ≠ i) (hk : (cfg j).key = (cfg i).key) :
+    ¬ holds cfg st j := by
+  intro hh
+  have := (others_refused_while_held cfg hd st j i hij hk hh).1
+  rw [h] at this; cases this
+
+/-- … and if nobody else holds it, it does succeed. -/
+theorem acquire_succeeds_if_no_other_holder (cfg : Nat → LockCfg) (st : St) (i : Nat)
+    (h : ∀ v, st.store.get (cfg i).key = some v → v = (cfg i).id) : (acquire cfg st i).2 = true := by
+  apply (acquire_iff_free_or_own cfg st i).2
+  cases hg : st.store.get (cfg i).key with
+  | none => exact Or.inl rfl
+  | some v => exact Or.inr (by rw [h v hg])
+
+/-- **Re-acquiring by the holder refreshes its lease**: if `i` is the holder, its Acquire succeeds, and from
+that moment the full lease `seconds·1000+500` runs again. -/
+theorem reacquire_by_holder_refreshes (cfg : Nat → LockCfg) (hd : DistinctIds cfg) (st : St) (i : Nat)
+    (hh : holds cfg st i) :
+    (acquire cfg st i).2 = true ∧
+    (acquire cfg st i).1.view (cfg i).key = some ((cfg i).id, ((st.secs i * 1000 + 500 : Nat) : Int)) ∧
+    ∀ ops : List Op, (∀ op ∈ ops, quietFor i op = true) →
+      (holds cfg (run cfg (acquire cfg st i).1 ops) i ↔ elapsed ops < st.secs i * 1000 + 500 + st.store.grace) := by
+  have h : (acquire cfg st i).2 = true := (acquire_iff_free_or_own cfg st i).2 (Or.inr hh)
+  exact ⟨h, (acquire_effect cfg st i).1 h, fun ops hq => lease_is_seconds_plus_500ms cfg hd st i (st.secs i) h ops hq⟩
+
+/-- **The lease lasts the CONFIGURED seconds plus 500 ms, end to end** (SetExpire → … → Acquire → lease):
+`SetExpire(s)` with any `s` in the `uint32` range; then any history `mid` in which nobody reconfigures `i`;
+then a successful Acquire by `i`; then anything by the others: `i` holds exactly while less than
+`s·1000 + 500 (+ grace)` ms have elapsed since that Acquire. -/
+theorem configured_lease_end_to_end (cfg : Nat → LockCfg) (hd : DistinctIds cfg) (st : St) (i s : Nat)
+    (hs : s < 4294967296) (mid : List Op) (hmid : ∀ op ∈ mid, keepsSeconds i op = true)
+    (h : (acquire cfg (run cfg (step cfg st (.setExpire i (s : Int))).1 mid) i).2 = true)
+    (ops : List Op) (hq : ∀ op ∈ ops, quietFor i op = true) :
+    holds cfg (run cfg (acquire cfg (run cfg (step cfg st (.setExpire i (s : Int))).1 mid) i).1 ops) i ↔
+      elapsed ops < s * 1000 + 500 + st.store.grace := by
+  have hsec : (run cfg (step cfg st (.setExpire i (s : Int))).1 mid).secs i = s := by
+    rw [run_secs_keep cfg i mid _ hmid]
+    have := setExpire_configures_seconds cfg st i (s : Int) (by omega) (by omega)
+    omega
+  have hg : (run cfg (step cfg st (.setExpire i (s : Int))).1 mid).store.grace = st.store.grace := by
+    rw [run_grace, step_grace]
+  have e : acquire cfg (run cfg (step cfg st (.setExpire i (s : Int))).1 mid) i =
+      acquireWith cfg (run cfg (step cfg st (.setExpire i (s : Int))).1 mid) i s := by
+    unfold acquire; rw [hsec]
+  rw [e] at h ⊢
+  rw [lease_is_seconds_plus_500ms cfg hd _ i s h ops hq, hg]
+
+/-- **Acquire under every schedule of round trips**: whatever happened between goroutine `t` entering
+`Acquire` of instance `a` and its script reaching Redis, if another instance `b` holds the key at that moment
+the round trip changes nothing and the call returns false. -/
+theorem acquire_in_any_schedule_refused_while_another_holds (g : Nat) (cfg : Nat → LockCfg) (hd : DistinctIds cfg)
+    (acts : List Act) (c : CConc) (h : crun real cfg (CConc.initG g) acts = some c) (t a b secs : Nat) (th : Thread)
+    (hth : c.thr t = some th) (hcall : th.call = .acq a secs) (cm : Cmd) (k : Reply → Prog)
+    (hp : th.prog = .cmd cm k) (hs : cm.isStoreStep = true)
+    (hab : a ≠ b) (hk : (cfg a).key = (cfg b).key) (hb : holds cfg c.st b) :
+    cstep real cfg c (.cmd t) =
+      some ({ st := c.st, thr := updT c.thr t (some { th with prog := .done false }) }, none) := by
+  rw [call_takes_effect_at_its_store_step g cfg acts c h t th hth cm k hp hs, hcall]
+  have hid : (cfg b).id ≠ (cfg a).id := fun e => hab (hd a b hk e.symm)
+  have hf : ¬ freeFor c.st.store (cfg a).key (cfg a).id := by
+    unfold holds at hb; rw [← hk] at hb
+    intro x; rcases x with x | x <;> simp [hb] at x; exact hid x
+  have e : step cfg c.st (Call.acq a secs).op = acquireWith cfg c.st a secs := rfl
+  have h1 : (acquireWith cfg c.st a secs).2 = false := by
+    cases hc : (acquireWith cfg c.st a secs).2 with
+    | false => rfl
+    | true => exact absurd ((acquireWith_result _ _ _ _).1 hc) hf
+  rw [e, h1, acquireWith_unchanged cfg c.st a secs hf]
+
+/-- **Release under every schedule reports true exactly for the holder** — holder at the moment the script
+runs, whatever happened since the call was entered: the call's result is `true` iff the caller is then the
+holder; if it is not, the shared state is untouched; if it is, its key is free afterwards. -/
+theorem release_in_any_schedule_true_iff_holder (g : Nat) (cfg : Nat → LockCfg)
+    (acts : List Act) (c : CConc) (h : crun real cfg (CConc.initG g) acts = some c) (t a : Nat) (th : Thread)
+    (hth : c.thr t = some th) (hcall : th.call = .rel a) (cm : Cmd) (k : Reply → Prog)
+    (hp : th.prog = .cmd cm k) (hs : cm.isStoreStep = true) :
+    cstep real cfg c (.cmd t) =
+      some ({ st := (release cfg c.st a).1,
+              thr := updT c.thr t (some { th with prog := .done (decide (holds cfg c.st a)) }) }, none) ∧
+    (¬ holds cfg c.st a → (release cfg c.st a).1 = c.st) ∧
+    (holds cfg c.st a → (release cfg c.st a).1.store.get (cfg a).key = none) := by
+  have hr := release_only_by_holder cfg c.st a
+  refine ⟨?_, hr.2.1, fun hh => (hr.2.2 hh).1⟩
+  rw [call_takes_effect_at_its_store_step g cfg acts c h t th hth cm k hp hs, hcall]
+  have e : step cfg c.st (Call.rel a).op = release cfg c.st a := rfl
+  rw [e]
+  by_cases hh : holds cfg c.st a
+  · simp [hh, hr.1.2 hh]
+  · have : (release cfg c.st a).2 = false := by
+      cases hc : (release cfg c.st a).2 with
+      | false => rfl
+      | true => exact absurd (hr.1.1 hc) hh
+    simp [hh, this]
+
+/-- **A whole call of the code that exists, entered through the public wrappers** (`Acquire()` →
+`AcquireCtx` → `ScriptRunCtx` → one script execution → decoding; likewise `Release()`), run by an idle
+goroutine without interference, is exactly one step of the model: same shared state, same result. -/
+theorem whole_call_is_one_model_step (cfg : Nat → LockCfg) (t : Nat) (c : CConc) (h : c.thr t = none) (op : Op)
+    (hs : isSimple op = true) :
+    wholeOp real cfg t c op = ({ c with st := (step cfg c.st op).1 }, (step cfg c.st op).2) :=
+  wholeOp_real cfg t c h op hs
+
 /-! ### How much `DistinctIds` assumes
 
 `NewRedisLock` draws the id with `stringx.Randn(16)`: 16 characters, each one of 62 (Tie: `tie_randomLen`,
@@ -419,6 +527,36 @@ the same id with probability `62⁻¹⁶`, and among `n` instances some pair col
 `n(n-1)/2 · 62⁻¹⁶` (union bound).  The two theorems evaluate that: the id space, and "up to a million
 instances: below 10⁻¹⁶".  What is *not* covered: `stringx` seeds `math/rand` with the start time in
 nanoseconds — two processes started in the same nanosecond draw the same ids (assumption, props/C19.json). -/
+
+/-- **shape of an id**: whatever the random source delivers, `Randn(n)` (if it returns) is `n` characters of the
+62-letter alphabet. -/
+theorem randn_id_shape (n : Nat) (draws : List Nat) (id : List Char) (h : randnFrom n draws = some id) :
+    id.length = n ∧ ∀ c ∈ id, c ∈ idAlphabet :=
+  ⟨randnFrom_length n draws id h, randnFrom_alphabet n draws id h⟩
+
+/-- **different accepted draws give different ids** (the map from the `n` accepted 6-bit indices to the id is
+injective, and an index is accepted iff it is `< 62`): if the draws are uniform and independent, every one of the
+`62ⁿ` ids is equally likely — the hypothesis under which `id_collision_union_bound` is read. -/
+theorem randn_injective_on_accepted_draws (n : Nat) (d1 d2 : List Nat) (id : List Char)
+    (h1 : randnFrom n d1 = some id) (h2 : randnFrom n d2 = some id) :
+    (d1.filter (· < 62)).take n = (d2.filter (· < 62)).take n := by
+  have hm : ∀ (d : List Nat), ∀ i ∈ (d.filter (· < 62)).take n, i < 62 := by
+    intro d i hi
+    have := List.mem_of_mem_take hi
+    simp only [List.mem_filter, decide_eq_true_eq] at this
+    exact this.2
+  unfold randnFrom at h1 h2
+  split at h1
+  · split at h2
+    · cases h1
+      simp only [Option.some.injEq, List.reverse_inj] at h2
+      exact (map_getD_inj _ _ (hm d2) (hm d1) h2).symm
+    · cases h2
+  · cases h1
+
+/-- one `Int63` yields 10 draws, each `< 64`; 62 of the 64 values are accepted -/
+theorem randn_draws_of_int63 (v : Nat) : (drawsOfInt63 v).length = 10 ∧ ∀ d ∈ drawsOfInt63 v, d < 64 :=
+  ⟨by simp [drawsOfInt63], drawsOfInt63_lt v⟩
 
 theorem id_space : 62 ^ 16 = 47672401706823533450263330816 := by decide
 
@@ -467,6 +605,96 @@ theorem driver_cfg_distinct_ids (nkeys : Nat) : DistinctIds (mkCfg nkeys) := by
   have e : ∀ i, (mkCfg nkeys i).id = "id" ++ Nat.repr i := by intro i; simp [mkCfg, toString]
   rw [e, e] at h
   exact Nat.repr_injective ((String.append_right_inj "id").mp h)
+
+/-- **the linearizability monitor never raises a false alarm on the model**: for the outcome the
+command-level model computes for an `inj` line (`runInj real`: results of the call and of the bracketed
+operations, final store), from any state with TTLs on all keys, `linearize` finds an atomic placement. -/
+theorem linearize_finds_model_placement (cfg : Nat → LockCfg) (keys : List String) (st : St) (h : HasTTL st)
+    (outer : Op) (ho : isCall outer = true) (cached : Bool) (p : Nat) (hp : 1 ≤ p) (inner : List Op)
+    (hs : ∀ op ∈ inner, isSimple op = true) :
+    (linearize cfg keys (abs st) outer (some (runInj real cfg st outer cached p inner).outer)
+      (inner.zip ((runInj real cfg st outer cached p inner).inner.map some))
+      (modelDump (runInj real cfg st outer cached p inner).st keys)).isSome = true := by
+  have hm := injFrom_real cfg st (callOf st outer) cached p hp inner hs _ (runInj_eq_injFrom cfg st outer ho cached p inner)
+  unfold linearize
+  rw [List.find?_isSome]
+  rcases Nat.lt_or_ge (realTrips cached) p with hlt | hge
+  · obtain ⟨_, h2, h3, h4⟩ := hm.2 hlt
+    refine ⟨(0, secOf st outer), ?_, ?_⟩
+    · rw [h3, map_fst_modelZip _ _ (results_length cfg inner _)]
+      exact mem_placements st outer inner 0 (by omega)
+    · rw [h2, h3, h4, placed_first cfg st outer ho inner]
+      have := specExplains_model cfg keys st h ((callOf st outer).op :: inner)
+      simp only [run, List.foldl_cons] at this
+      simp only [run]
+      rw [this]; rfl
+  · obtain ⟨_, h2, h3, h4⟩ := hm.1 hge
+    refine ⟨(inner.length, secOf st outer), ?_, ?_⟩
+    · rw [h2, map_fst_modelZip _ _ (results_length cfg inner _)]
+      exact mem_placements st outer inner inner.length (by omega)
+    · rw [h2, h3, h4, placed_last cfg st outer ho inner]
+      have := specExplains_model cfg keys st h (inner ++ [(callOf st outer).op])
+      rw [run_append] at this
+      simp only [run, List.foldl_cons, List.foldl_nil] at this
+      simp only [run]
+      rw [this]; rfl
+
+
+/-- … in particular in every state reachable from the empty store (where the driver starts), with the spec
+state the driver carries along (`Spec.run`). -/
+theorem linearizability_monitor_silent_on_model (g : Nat) (cfg : Nat → LockCfg) (keys : List String) (ops : List Op)
+    (outer : Op) (ho : isCall outer = true) (cached : Bool) (p : Nat) (hp : 1 ≤ p) (inner : List Op)
+    (hs : ∀ op ∈ inner, isSimple op = true) :
+    (linearize cfg keys (Spec.run cfg (ASt.initG g) ops) outer
+      (some (runInj real cfg (run cfg (St.initG g) ops) outer cached p inner).outer)
+      (inner.zip ((runInj real cfg (run cfg (St.initG g) ops) outer cached p inner).inner.map some))
+      (modelDump (runInj real cfg (run cfg (St.initG g) ops) outer cached p inner).st keys)).isSome = true := by
+  have hr := run_refines cfg ops (St.initG g) (hasTTL_initG g)
+  rw [abs_initG] at hr
+  rw [hr.1]
+  exact linearize_finds_model_placement cfg keys _ hr.2 outer ho cached p hp inner hs
+
+/-- **the store monitor never fires on the model**: the lease table's view of every key is what the Redis-level
+model shows, after every history (so a `spec=[…] impl=[…]` line can only come from the implementation). -/
+theorem store_monitor_silent_on_model (g : Nat) (cfg : Nat → LockCfg) (keys : List String) (ops : List Op) :
+    specDump (Spec.run cfg (ASt.initG g) ops) keys = modelDump (run cfg (St.initG g) ops) keys := by
+  have hr := run_refines cfg ops (St.initG g) (hasTTL_initG g)
+  rw [abs_initG] at hr
+  rw [hr.1]
+  exact specDump_abs _ hr.2 keys
+
+/-- **the beliefs monitor never fires on the model** ("two holders: instance i was granted … while instance j still
+holds an unexpired lease"): in every state reachable from the empty store, with the beliefs derived from the
+model's own results, after a successful Acquire by `i` no other instance on its key believes to hold it. -/
+theorem belief_monitor_silent_on_model (g : Nat) (cfg : Nat → LockCfg) (hd : DistinctIds cfg) (ops : List Op)
+    (c : Ctx) (hc : c.cfg = cfg) (i : Nat)
+    (hres : (step cfg (run cfg (St.initG g) ops) (.acquire i)).2 = true) :
+    otherBeliever c
+      (((grun cfg (St.initG g) Belief.none ops).2).step (run cfg (St.initG g) ops).store.now
+        (run cfg (St.initG g) ops).secs (.acquire i) true)
+      (run cfg (St.initG g) ops).store.now i = none := by
+  have hinv := beliefInv_grun cfg hd ops (St.initG g) Belief.none (by intro i u hb; simp [Belief.none] at hb)
+  rw [grun_fst] at hinv
+  unfold otherBeliever
+  rw [List.find?_eq_none]
+  intro j _ hj
+  simp only [decide_eq_true_eq, Bool.and_eq_true, Bool.decide_and] at hj
+  obtain ⟨hji, hk, hb⟩ := hj
+  rw [hc] at hk
+  have hb' : believes (grun cfg (St.initG g) Belief.none ops).2 (run cfg (St.initG g) ops).store.now j = true := by
+    simpa [Belief.step, updB, believes, hji] using hb
+  have hh := believes_holds cfg _ _ hinv j hb'
+  exact acquire_succeeds_only_if_no_other_holder cfg hd _ i hres j hji hk hh
+
+/-- two instances on one key that drew the SAME id (what `DistinctIds` excludes; `NewRedisLock` draws ids from a
+`math/rand` source seeded with the start time in ns) -/
+def sameIdCfg (_ : Nat) : LockCfg := { key := "k", id := "same" }
+
+/-- **`DistinctIds` is necessary** (witness): with a shared id the second instance's Acquire is taken for a refresh
+by the holder — both calls report true at the same instant — and its Release frees the first one's lock. -/
+theorem same_id_two_holders :
+    results sameIdCfg St.init [.acquire 0, .acquire 1, .release 1, .release 0] = [true, true, true, false] := by
+  decide
 
 /-! ### non-vacuity: concrete instances of the hypotheses and of the scenarios -/
 
@@ -537,5 +765,29 @@ example : (crun real exCfg CConc.init (lateScriptSchedule.take 8)).map (fun c =>
 example : (believes (grun exCfg St.init Belief.none [.acquire 0, .ft 500, .acquire 1]).2 500 0,
            believes (grun exCfg St.init Belief.none [.acquire 0, .ft 500, .acquire 1]).2 500 1) = (false, true) := by
   decide
+
+-- round 4
+example : keepsSeconds 0 (.setExpire 1 5) = true ∧ keepsSeconds 0 (.acquire 0) = true ∧ keepsSeconds 0 (.setExpire 0 5) = false := by decide
+
+example : (acquire exCfg (run exCfg (step exCfg St.init (.setExpire 0 4294967295)).1 [.setExpire 1 7, .acquire 1, .ft 7500]) 0).2 = true := by decide
+
+example : holds exCfg (run exCfg St.init [.setExpire 0 2, .acquire 0, .ft 2000]) 0 ∧
+    (run exCfg St.init [.setExpire 0 2, .acquire 0, .ft 2000, .acquire 0]).view "k" = some ("a", 2500) := by decide
+
+-- hypotheses of `acquire_in_any_schedule_refused_while_another_holds`: thread 1 has entered Acquire of instance 1
+-- (script run pending) while instance 0 holds
+example : (crun real exCfg CConc.init [.acquire 0 0 true, .cmd 0, .ret 0, .acquire 1 1 true]).map
+    (fun c => (pending c 1, decide (holds exCfg c.st 0))) = some (true, true) := by decide
+
+-- a placement found for the property's scenario (lease runs out inside Release, then the competitor acquires): the
+-- Release took effect after the expiry (position 1; position 2, after the competitor's Acquire, explains it too)
+example : linearize exCfg ["k"] (Spec.run exCfg ASt.init [.acquire 0]) (.release 0) (some false)
+    [(.ft 500, some true), (.acquire 1, some true)] "k=aa:500" = some (1, 0) := by decide
+
+-- Randn(3) from one Int63 whose low draws are 0, 63 (rejected), 61, 26: ids fill from the back: "A9a"
+example : randnFrom 3 (drawsOfInt63 (0 + 63 * 64 + 61 * 64 ^ 2 + 26 * 64 ^ 3)) = some ['A', '9', 'a'] := by decide
+
+-- hypothesis of `belief_monitor_silent_on_model` is satisfiable: after 0's lease ran out, 1's Acquire succeeds
+example : (step exCfg (run exCfg St.init [.acquire 0, .ft 500]) (.acquire 1)).2 = true := by decide
 
 end GoZero.C19
